@@ -306,15 +306,16 @@ def make(seed):
 
 # write menu on the primary base: (offset, value key); simplest first
 WRITES = [
-    (0, ("X", 8)), (-1, ("X", 16)), (0, ("X", 32)), (-2, ("X", 32)), (2, ("X", 32)), (1, ("X", 16)), (-1, ("X", 64)),
+    (0, ("X", 8)), (-1, ("X", 16)), (0, ("X", 32)), (-2, ("X", 32)), (2, ("X", 32)), (-1, ("X", 64)),
     (-1, ("C", 16)), (0, ("C", 32)),
     (0, ("O", 8)), (-1, ("O", 16)),
-    (-1, ("M", 16, 1)), (0, ("M", 16, -1)),
-    (0, ("S", 8, 0)), (-1, ("S", 16, 1)),
+    (-1, ("M", 16, 1)),
+    (0, ("S", 8, 0)),
     (-1, ("K", 16)), (-1, ("R", 16, 1)),
     (0, ("U", 16, 4)),
 ]
 WRITES_MORE = [
+    (1, ("X", 16)), (0, ("M", 16, -1)), (-1, ("S", 16, 1)),
     (-2, ("C", 8)), (-2, ("O", 32)),
     (1, ("X", 8)), (-2, ("X", 64)), (-2, ("Y", 16)), (1, ("C", 16)), (-2, ("M", 32, 1)), (0, ("K", 16)), (-1, ("S", 16, 0)),
     (0, ("O", 64)), (1, ("X", 32)), (0, ("R", 16, 0)), (-1, ("R", 8, 2)),
